@@ -193,7 +193,12 @@ def _unit_table(ctx):
     ini = ctx.fn(MR, "ModelResultsHandler.__init__")
     isum = ctx.builder().summarize(ini)
     w = {x[1]: x[2] for x in isum.attr_writes}
-    oki = all(w.get(n) == ("param", n) for n in ("reporting_units", "nonreporting_units", "unexpected_units"))
+    def _same(t_, n_):
+        # the frame itself or a copy of it: same rows, same row labels (vectors computed from the caller's frame are assigned by label)
+        while t_ is not None and t_[0] == "call" and t_[1][0] == "attr" and t_[1][2] == "copy":
+            t_ = t_[1][1]
+        return t_ == ("param", n_)
+    oki = all(_same(w.get(n), n) for n in ("reporting_units", "nonreporting_units", "unexpected_units"))
     ctx.ob("C01.R2.binding", f"{ini.qualname}|frames stored unchanged", oki, ini.where(),
            "the handler keeps the frames it is given" if oki else "the handler stores something else than the frames it is given")
 
